@@ -526,8 +526,8 @@ func ruleBridgeIDs(c *chk.Ctx) {
 		if g == nil || g.Name() != "SetID" {
 			return
 		}
-		arg := ci.Common().Args[1]
-		rsp := ci.Common().Args[0]
+		arg := c.P.Canon(ci.Common().Args[1])
+		rsp := c.P.Canon(ci.Common().Args[0])
 		u1, ok1 := arg.(*ssa.UnOp)
 		u2, ok2 := rsp.(*ssa.UnOp)
 		if !ok1 || !ok2 {
@@ -535,7 +535,7 @@ func ruleBridgeIDs(c *chk.Ctx) {
 		}
 		ia1, ok1 := u1.X.(*ssa.IndexAddr)
 		ia2, ok2 := u2.X.(*ssa.IndexAddr)
-		if ok1 && ok2 && ia1.Index == ia2.Index {
+		if ok1 && ok2 && c.P.Canon(ia1.Index) == c.P.Canon(ia2.Index) {
 			// ia1.X is the id list (phi of idApp), ia2.X the Batch result
 			idList := false
 			for _, src := range c.P.SourcesStop(ia1.X, func(v ssa.Value) bool { return v == ssa.Value(idApp) }) {
@@ -556,52 +556,63 @@ func ruleBridgeIDs(c *chk.Ctx) {
 		}
 		ks := condStrings(c.P.CondsWithin(sw.ci, f))
 		// governed by len(results)==0 where results is the final list
-		okLen := false
-		for _, cd := range c.P.CondsWithin(sw.ci, f) {
-			if bo, ok := cd.V.(*ssa.BinOp); ok && bo.Op == token.EQL && cd.Truth {
-				if x, isLen := ir.LenOf(bo.X); isLen {
-					if k, _ := ir.ConstInt(bo.Y); k == 0 {
-						// x must include both the error objects and the responses
-						hasErr, hasRsp := false, false
-						seenV := map[ssa.Value]bool{}
-						var reach func(v ssa.Value, depth int)
-						reach = func(v ssa.Value, depth int) {
-							if depth > 8 || seenV[v] {
-								return
-							}
-							seenV[v] = true
-							for _, src := range c.P.SourcesStop(v, func(y ssa.Value) bool {
-								if y == ssa.Value(errApp) || y == ssa.Value(rspApp) {
-									return true
+		okLen := true
+		alts204 := expandPredicateHelpers(c, c.P.CondsWithin(sw.ci, f), 0)
+		if len(alts204) == 0 {
+			okLen = false
+		}
+		for _, gate := range alts204 {
+			okAlt := false
+			for _, cd := range gate {
+				if x0, y0, op0, isRel := ir.Rel(cd); isRel && op0 == token.EQL {
+					bo := struct{ X, Y ssa.Value }{x0, y0}
+					if x, isLen := ir.LenOf(bo.X); isLen {
+						if k, isK := ir.ConstInt(bo.Y); isK && k == 0 {
+							// x must include both the error objects and the responses
+							hasErr, hasRsp := false, false
+							seenV := map[ssa.Value]bool{}
+							var reach func(v ssa.Value, depth int)
+							reach = func(v ssa.Value, depth int) {
+								if depth > 8 || seenV[v] {
+									return
 								}
-								call, ok := y.(*ssa.Call)
-								if !ok {
-									return false
-								}
-								b, isB := call.Call.Value.(*ssa.Builtin)
-								return isB && b.Name() == "append"
-							}) {
-								if src == ssa.Value(errApp) {
-									hasErr = true
-								}
-								if src == ssa.Value(rspApp) {
-									hasRsp = true
-								}
-								if call, ok := src.(*ssa.Call); ok {
-									if b, isB := call.Call.Value.(*ssa.Builtin); isB && b.Name() == "append" {
-										for _, a := range call.Call.Args {
-											reach(a, depth+1)
+								seenV[v] = true
+								for _, src := range c.P.SourcesStop(v, func(y ssa.Value) bool {
+									if y == ssa.Value(errApp) || y == ssa.Value(rspApp) {
+										return true
+									}
+									call, ok := y.(*ssa.Call)
+									if !ok {
+										return false
+									}
+									b, isB := call.Call.Value.(*ssa.Builtin)
+									return isB && b.Name() == "append"
+								}) {
+									if src == ssa.Value(errApp) {
+										hasErr = true
+									}
+									if src == ssa.Value(rspApp) {
+										hasRsp = true
+									}
+									if call, ok := src.(*ssa.Call); ok {
+										if b, isB := call.Call.Value.(*ssa.Builtin); isB && b.Name() == "append" {
+											for _, a := range call.Call.Args {
+												reach(a, depth+1)
+											}
 										}
 									}
 								}
 							}
-						}
-						reach(x, 0)
-						if hasErr && hasRsp {
-							okLen = true
+							reach(x, 0)
+							if hasErr && hasRsp {
+								okAlt = true
+							}
 						}
 					}
 				}
+			}
+			if !okAlt {
+				okLen = false
 			}
 		}
 		c.Check(okLen, "PAIR.ids", f, "204 exactly when nothing to report", sw.ci.Pos(), "204 is written exactly under len(results) == 0, results holding both error objects and responses", "204 is written under ["+strings.Join(ks, "∧")+"], which is not 'no result of either kind': error objects of invalid members could be dropped")
@@ -1068,7 +1079,19 @@ func ruleLoop(c *chk.Ctx) {
 			if !ok {
 				return
 			}
-			if ir.NormCell(call.Call.Value) == ssa.Value(newSvcParam) || c.P.Canon(call.Call.Value) == ssa.Value(newSvcParam) {
+			isNewSvc := ir.NormCell(call.Call.Value) == ssa.Value(newSvcParam) || c.P.Canon(call.Call.Value) == ssa.Value(newSvcParam)
+			if !isNewSvc && !call.Call.IsInvoke() && call.Call.StaticCallee() == nil && types.Identical(call.Call.Value.Type(), newSvcParam.Type()) {
+				// the constructor kept in a field of a helper value: every value that reaches the
+				// field must be Loop's parameter
+				srcs := c.P.Sources(call.Call.Value)
+				isNewSvc = len(srcs) > 0
+				for _, src := range srcs {
+					if src != ssa.Value(newSvcParam) {
+						isNewSvc = false
+					}
+				}
+			}
+			if isNewSvc {
 				if f == loop {
 					inLoopBody = true
 				} else {
@@ -1183,15 +1206,33 @@ func ruleLoop(c *chk.Ctx) {
 		c.Check(!reach || first == ssa.Instruction(start), "PAIR.loop", conn, "failed service: no server, no Finish", assigner.Pos(), "neither Start nor Finish is reachable from the Assigner error edge", "Start or Finish is reachable although Assigner failed")
 	}
 	// D4: Loop returns last
-	var wgWait *ssa.Call
-	ir.Instrs(loop, func(ins ssa.Instruction) {
+	// the group is the one the per-connection goroutine is registered with; a return that is the
+	// tail call of a private helper is judged inside the helper
+	connWG := classifyOne(c, connGo).wg
+	var waits []*ssa.Call
+	c.P.ExtInstrs(loop, func(ins ssa.Instruction) {
 		if call, ok := ins.(*ssa.Call); ok {
-			if id, ok := wgCall(call, "Wait"); ok && strings.HasPrefix(id, "local:") {
-				wgWait = call
+			if id, ok := wgCall(call, "Wait"); ok && (id == connWG || (connWG == "" && strings.HasPrefix(id, "local:"))) {
+				waits = append(waits, call)
 			}
 		}
 	})
-	c.Check(wgWait != nil && ir.AllReturnsDominatedBy(wgWait), "PAIR.loop", loop, "Loop returns last", loop.Pos(), "every return of Loop is dominated by wg.Wait()", "Loop can return before waiting for the per-connection goroutines")
+	allDominated := func(rs []*ssa.Return) bool {
+		for _, r := range rs {
+			dominated := false
+			for _, w := range waits {
+				if w.Parent() == r.Parent() && ir.InstrDominates(w, r) {
+					dominated = true
+				}
+			}
+			if !dominated {
+				return false
+			}
+		}
+		return len(rs) > 0
+	}
+	okLast := len(waits) > 0 && (allDominated(ir.Returns(loop)) || allDominated(effectiveReturns(c, loop, 0)))
+	c.Check(okLast, "PAIR.loop", loop, "Loop returns last", loop.Pos(), "every return of Loop is dominated by wg.Wait()", "Loop can return before waiting for the per-connection goroutines")
 	// D5: a watcher stops the server when the child context ends
 	okStop := false
 	ir.Instrs(conn, func(ins ssa.Instruction) {
@@ -1467,7 +1508,6 @@ func ruleQuerySliceBounds(c *chk.Ctx) {
 	}
 }
 
-
 // statusWritesExt: status writes in f and its private helpers.
 func statusWritesExt(c *chk.Ctx, f *ssa.Function) []statusWrite {
 	var out []statusWrite
@@ -1476,7 +1516,6 @@ func statusWritesExt(c *chk.Ctx, f *ssa.Function) []statusWrite {
 	}
 	return out
 }
-
 
 // constTableValuesAllowed: v is an entry looked up in a package-level map that is
 // only written by the package initialiser; reports whether every value stored
